@@ -574,6 +574,7 @@ func runC20(c *Ctx) {
 
 	// ------------------------------------------------------------------ (2)
 	s.checkSendAfterClose(c, ls)
+	s.checkLockPairing(c)
 
 	// ------------------------------------------------------------------ (3)
 	s.checkLockOrder(c, ls)
@@ -1013,4 +1014,138 @@ func describeBlocking(p *Prog, in ssa.Instruction, block *Deep) string {
 		}
 	}
 	return "blocking operation in a callee"
+}
+
+// ---------------------------------------------------------------------------
+// lock pairing: every acquisition is released on all exits, every release has its acquisition
+
+type mutexOp struct {
+	in    ssa.Instruction
+	kind  string // Lock, Unlock, RLock, RUnlock
+	id    string // field + owner path, or local identity
+	defer_ bool
+}
+
+func mutexOpOf(in ssa.Instruction) (mutexOp, bool) {
+	ci, ok := in.(ssa.CallInstruction)
+	if !ok {
+		return mutexOp{}, false
+	}
+	if _, isGo := in.(*ssa.Go); isGo {
+		return mutexOp{}, false
+	}
+	cc := ci.Common()
+	o := CalleeObj(cc)
+	if o == nil || o.Pkg() == nil || o.Pkg().Path() != "sync" || len(cc.Args) == 0 || cc.IsInvoke() {
+		return mutexOp{}, false
+	}
+	switch o.Name() {
+	case "Lock", "Unlock", "RLock", "RUnlock":
+	default:
+		return mutexOp{}, false
+	}
+	recv := o.Type().(*types.Signature).Recv()
+	if recv == nil {
+		return mutexOp{}, false
+	}
+	rt := recv.Type().String()
+	if rt != "*sync.Mutex" && rt != "*sync.RWMutex" {
+		return mutexOp{}, false
+	}
+	id := baseString(cc.Args[0])
+	if id == "" {
+		id = cc.Args[0].Name()
+	}
+	_, isDefer := in.(*ssa.Defer)
+	return mutexOp{in: in, kind: o.Name(), id: id, defer_: isDefer}, true
+}
+
+func (s *Sel) checkLockPairing(c *Ctx) {
+	p := c.P
+	rule := c.Rule("lock-pairing", "in every function of app, pclog, api and types: from each Lock/RLock every path to a return passes the matching Unlock/RUnlock of the same mutex (directly, or a defer of it is registered), and each Unlock (or deferred Unlock) is preceded by - or, for a defer registered first, followed before the return by - the matching Lock on every path (a leaked lock blocks every later caller for ever; unlocking an unlocked mutex is a fatal runtime error)")
+	n := 0
+	for _, f := range p.Funcs {
+		pk := pkgOfFunc(f)
+		if pk == nil {
+			continue
+		}
+		switch pk.Name() {
+		case "app", "pclog", "api", "types", "health", "command":
+		default:
+			continue
+		}
+		var ops []mutexOp
+		AllInstrs(f, func(in ssa.Instruction) {
+			if op, ok := mutexOpOf(in); ok {
+				ops = append(ops, op)
+			}
+		})
+		if len(ops) == 0 {
+			continue
+		}
+		pair := map[string]string{"Lock": "Unlock", "RLock": "RUnlock"}
+		for _, op := range ops {
+			un, isAcq := pair[op.kind]
+			if isAcq && !op.defer_ {
+				n++
+				c.Touch(f)
+				isRel := func(x ssa.Instruction) bool {
+					o2, ok := mutexOpOf(x)
+					return ok && o2.kind == un && o2.id == op.id
+				}
+				// a defer of the release registered before the acquisition covers every return
+				deferredBefore := false
+				for _, o2 := range ops {
+					if o2.defer_ && o2.kind == un && o2.id == op.id && DominatesInstr(o2.in, op.in) {
+						deferredBefore = true
+					}
+				}
+				leak := false
+				if !deferredBefore {
+					for x := range Reach([]Pt{after(op.in)}, isRel, nil) {
+						if _, isRet := x.(*ssa.Return); isRet {
+							leak = true
+						}
+					}
+				}
+				c.Check(!leak, rule, fmt.Sprintf("release:%s:%s", p.FuncKey(f), op.id), p.InstrPos(op.in), "released on every path", "a path from this "+op.kind+" returns without the matching "+un+": the mutex stays locked and the next caller blocks for ever")
+			}
+			if op.kind == "Unlock" || op.kind == "RUnlock" {
+				acq := "Lock"
+				if op.kind == "RUnlock" {
+					acq = "RLock"
+				}
+				isAcqI := func(x ssa.Instruction) bool {
+					o2, ok := mutexOpOf(x)
+					return ok && !o2.defer_ && o2.kind == acq && o2.id == op.id
+				}
+				n++
+				bad := false
+				if op.defer_ {
+					// the acquisition precedes the defer, or follows it before any return
+					pre := true
+					for x := range Reach(Entry(f), isAcqI, nil) {
+						if x == op.in {
+							pre = false
+						}
+					}
+					if !pre {
+						for x := range Reach([]Pt{after(op.in)}, isAcqI, nil) {
+							if _, isRet := x.(*ssa.Return); isRet {
+								bad = true
+							}
+						}
+					}
+				} else {
+					for x := range Reach(Entry(f), isAcqI, nil) {
+						if x == op.in {
+							bad = true
+						}
+					}
+				}
+				c.Check(!bad, rule, fmt.Sprintf("acquired:%s:%s", p.FuncKey(f), op.id), p.InstrPos(op.in), "the mutex is held when it is released", "this "+op.kind+" can be reached (or, deferred, can run at a return) without the matching "+acq+": unlocking an unlocked mutex is a fatal runtime error that no recover catches - the supervisor crashes")
+			}
+		}
+	}
+	c.Floor(rule, 60, "lock/unlock sites")
 }
